@@ -306,3 +306,7 @@ def run(repo: Repo, rep: Report, tier: str) -> None:
     none_ret = [r for r in rets if r.value is None or norm(r.value) == "None"]
     first_if = [i for i in walk_no_nested(ex) if isinstance(i, ast.If) and norm(i.test) == "exc_type is None"]
     rep.check(bool(first_if) and bool(none_ret), "attempt", "service_class.attempt.__exit__", "if exc_type is None: return None", "without an exception attempt must not send anything", mod=sc, node=ex)
+    for r in none_ret:
+        g_ = enclosing(r, (ast.If,))
+        okr = g_ is not None and norm(g_.test) in ("exc_type is None", "exc_val is None", "not exc_type") and any(x is r for x in g_.body)
+        rep.check(okr, "attempt", "service_class.attempt.__exit__", r, f"__exit__ lets an exception through (falsy return under `{norm(g_.test) if g_ is not None else 'no condition'}`): a handler raising it (SystemExit, KeyboardInterrupt, GeneratorExit) leaves the request without any final response", mod=sc, node=r)
